@@ -1,5 +1,190 @@
-import Solvor.Pack.Model
-/-! Pack: property theorems only (helper lemmas live in Lemmas.lean). -/
+import Solvor.Pack.KnapDP
+import Solvor.Pack.BinLemmas
+/-!
+Pack: the property theorems of C16 (helper lemmas are in `Lemmas.lean`, `KnapDP.lean`,
+`BinLemmas.lean`).
+
+Spec vocabulary.  Knapsack items are `(weight, value)` pairs; a *selection* is a list of item
+indices; `KnapFeasible items cap sel` says the indices are distinct, in range, and their total
+weight is within `cap`; `selV` is the total value.  A packing is `asg : List Nat` (bin index per
+item) with a bin count `k`; `ValidPack sizes cap asg k` says every item has exactly one bin index
+below `k`, each of the bins `0..k-1` is used, and every bin's exact load is within `cap`.
+-/
 namespace Solvor.Pack
+open Solvor.Gen (Status)
+
+/-! ## T-spec: verified checkers and the definitional optimum -/
+
+/-- The Boolean feasibility checker evaluated on the implementation's selections decides
+exactly `KnapFeasible`. -/
+theorem chkSel_iff (items : List (Rat × Rat)) (cap : Rat) (sel : List Nat) :
+    chkSel items cap sel = true ↔ KnapFeasible items cap sel := by
+  unfold chkSel
+  simp only [Bool.and_eq_true, nodupB_iff, List.all_eq_true, decide_eq_true_eq]
+  exact ⟨fun ⟨⟨a, b⟩, c⟩ => ⟨a, b, c⟩, fun h => ⟨⟨h.nodup, h.inRange⟩, h.fits⟩⟩
+
+/-- `chkKnapsack` decides: feasible, and the reported objective is the sum of the values. -/
+theorem chkKnapsack_iff (items : List (Rat × Rat)) (cap : Rat) (sel : List Nat) (obj : Rat) :
+    chkKnapsack items cap sel obj = true ↔ KnapFeasible items cap sel ∧ selV items sel = obj := by
+  unfold chkKnapsack
+  simp only [Bool.and_eq_true, chkSel_iff, decide_eq_true_eq]
+
+/-- The definitional optimum `knapBest` (exhaustive take/skip enumeration on exact rationals) is
+the optimum: it dominates the value of every feasible selection, and it is attained by one.
+(`knapBest = none` exactly when nothing – not even the empty selection – is feasible.) -/
+theorem knapBest_optimal (items : List (Rat × Rat)) (cap : Rat) :
+    (∀ sel, KnapFeasible items cap sel → ∃ b, knapBest items cap = some b ∧ selV items sel ≤ b) ∧
+    (∀ b, knapBest items cap = some b → ∃ sel, KnapFeasible items cap sel ∧ selV items sel = b) := by
+  constructor
+  · intro sel h
+    have := knapBestRev_ge items.reverse cap sel h.nodup (by simpa using h.inRange)
+      (by simpa using h.fits)
+    simpa [knapBest] using this
+  · intro b hb
+    obtain ⟨sel, h1, h2, h3, h4⟩ := knapBestRev_attained items.reverse cap b hb
+    exact ⟨sel, ⟨h1, by simpa using h2, by simpa using h3⟩, by simpa using h4⟩
+
+/-! ## T-model: the knapsack DP of `solve_knapsack` (integer weights and capacity) -/
+
+/-- **knapsack_dp_optimal.**  For every list of items `(int_weight, value)` with rational values
+(any sign – `minimize` runs the same DP on negated values) and every integer capacity, the mirror
+of `solve_knapsack`'s DP satisfies:
+
+1. the in-place, backward-traversed table equals the simultaneous recurrence `dpRec`
+   (`dp[w] = max(dp'[w], dp'[w - w_i] + v_i)` with the strict `>` of the source) at every `w ≤ cap`;
+2. the keep-table backtrack returns strictly increasing (hence distinct) in-range indices whose
+   total weight is within the capacity and whose total value is `dp[cap]`;
+3. `dp[cap]` – hence the returned selection – is optimal: no set of distinct in-range indices
+   within the capacity has a larger total value. -/
+theorem knapsack_dp_optimal (items : List (Nat × Rat)) (cap : Nat) :
+    (∀ w, w ≤ cap → (dpRun ratOps items cap).1.getD w 0 = dpRec items.reverse w) ∧
+    (knapInt ratOps items cap).1.Pairwise (· < ·) ∧
+    (∀ i ∈ (knapInt ratOps items cap).1, i < items.length) ∧
+    selWN items (knapInt ratOps items cap).1 ≤ cap ∧
+    selVN items (knapInt ratOps items cap).1 = (knapInt ratOps items cap).2 ∧
+    ∀ sel : List Nat, sel.Nodup → (∀ i ∈ sel, i < items.length) → selWN items sel ≤ cap →
+      selVN items sel ≤ (knapInt ratOps items cap).2 := by
+  obtain ⟨hdp, hk⟩ := dpRun_spec items cap
+  have hsel : (knapInt ratOps items cap).1 = btRec items.reverse cap := by
+    have := backtrack_eq hk cap (Nat.le_refl _) []
+    simpa [knapInt] using this
+  have hval : (knapInt ratOps items cap).2 = dpRec items.reverse cap := by
+    simpa [knapInt, ratOps] using hdp cap (Nat.le_refl _)
+  obtain ⟨p1, p2, p3, p4⟩ := btRec_spec items.reverse cap
+  simp only [List.reverse_reverse, List.length_reverse] at p2 p3 p4
+  refine ⟨hdp, by rw [hsel]; exact p1, by rw [hsel]; exact p2, by rw [hsel]; exact p3,
+    by rw [hsel, hval]; exact p4, fun sel h1 h2 h3 => ?_⟩
+  rw [hval]
+  have := dpRec_ge items.reverse cap sel h1 (by simpa using h2) (by simpa using h3)
+  simpa using this
+
+/-- Link between the two: for integer weights and capacity, `dp[cap]` of the proved DP *is* the
+definitional optimum `knapBest` of the same instance read over the rationals (the optimum the
+check compares every OPTIMAL answer with). -/
+theorem knapsack_dp_eq_knapBest (items : List (Nat × Rat)) (cap : Nat) :
+    knapBest (castItems items) (cap : Rat) = some (knapInt ratOps items cap).2 := by
+  obtain ⟨_, p1, p2, p3, p4, p5⟩ := knapsack_dp_optimal items cap
+  obtain ⟨hge, hatt⟩ := knapBest_optimal (castItems items) (cap : Rat)
+  obtain ⟨b, hb, hle⟩ := hge _ ((feasible_cast items cap _).2 ⟨p1.imp (fun h => Nat.ne_of_lt h), p2, p3⟩)
+  obtain ⟨sel, hf, hv⟩ := hatt b hb
+  obtain ⟨a1, a2, a3⟩ := (feasible_cast items cap sel).1 hf
+  have h1 := p5 sel a1 a2 a3
+  rw [selV_cast] at hle hv
+  rw [hb, ← hv, p4.symm]
+  congr 1
+  rw [← p4] at h1
+  exact Rat.le_antisymm h1 (by rw [hv]; exact hle)
+
+/-! ## Bin packing -/
+
+/-- The Boolean checker evaluated on the implementation's assignments decides exactly
+`ValidPack`. -/
+theorem chkPack_iff (sizes : List Rat) (cap : Rat) (asg : List Nat) (k : Nat) :
+    chkPack sizes cap asg k = true ↔ ValidPack sizes cap asg k := by
+  unfold chkPack
+  simp only [Bool.and_eq_true, beq_iff_eq, List.all_eq_true, List.mem_range, decide_eq_true_eq,
+    List.any_eq_true]
+  constructor
+  · rintro ⟨⟨h1, h2⟩, h3⟩
+    exact ⟨h1, h2, fun b hb => (h3 b hb).1, fun b hb => (h3 b hb).2⟩
+  · intro h
+    exact ⟨⟨h.len, h.lt⟩, fun b hb => ⟨h.used b hb, h.load b hb⟩⟩
+
+/-- Any valid packing into `k` bins has `Σ sizes ≤ k · capacity`, i.e. `k ≥ ⌈Σ/C⌉`; and a valid
+packing of a non-empty item list uses at least one bin. -/
+theorem validPack_lower_bound {sizes : List Rat} {cap : Rat} {asg : List Nat} {k : Nat}
+    (h : ValidPack sizes cap asg k) :
+    sizes.sum ≤ k * cap ∧ (0 < cap → (sizes.sum / cap).ceil ≤ (k : Int)) ∧ (sizes ≠ [] → 1 ≤ k) := by
+  refine ⟨h.sum_le, fun hc => ceil_le_of_le_mul hc h.sum_le, fun hne => ?_⟩
+  have : 0 < sizes.length := List.length_pos_iff.2 hne
+  have := h.lt 0 this
+  omega
+
+/-- **binpack_valid.**  For every non-empty list of sizes in `[0, cap]` (zero sizes included),
+every positive capacity and each of the four heuristics (`useBest` = best-fit instead of first-fit,
+`dec` = the `-decreasing` variant), the mirror of `solve_bin_pack` returns normally with a valid
+packing: every item is in exactly one of the bins `0..k-1`, each of these bins is in use, every
+load is within the capacity in exact arithmetic, `k` is the reported bin count with
+`k ≥ ⌈Σ sizes / cap⌉` and `k ≥ 1`; the status is OPTIMAL exactly when `k ≤ 1`
+(the code's rule) and then `k` is minimal among all valid packings. -/
+theorem binpack_valid (sizes : List Rat) (cap : Rat) (useBest dec : Bool)
+    (hn : sizes ≠ []) (hcap : 0 < cap) (hs : ∀ s ∈ sizes, 0 ≤ s ∧ s ≤ cap) :
+    ∃ r, pack ratOps sizes cap useBest dec = .ok r ∧
+      ValidPack sizes cap r.asg r.k ∧ (sizes.sum / cap).ceil ≤ (r.k : Int) ∧ 1 ≤ r.k ∧
+      (r.status = .OPTIMAL ∨ r.status = .FEASIBLE) ∧ (r.status = .OPTIMAL ↔ r.k ≤ 1) ∧
+      (r.status = .OPTIMAL → ∀ asg' k', ValidPack sizes cap asg' k' → r.k ≤ k') := by
+  obtain ⟨hv, hk⟩ := packRun_valid sizes cap useBest dec hcap hs
+  have hk1 := hk hn
+  have h0 : sizes.length ≠ 0 := fun h => hn (List.eq_nil_of_length_eq_zero h)
+  have h1 : ratOps.le cap ratOps.zero = false := by
+    show decide (cap ≤ 0) = false
+    exact decide_eq_false (by grind)
+  have h2 : sizes.any (fun s => ratOps.lt cap s || ratOps.lt s ratOps.zero) = false := by
+    rw [List.any_eq_false]
+    intro s hs'
+    obtain ⟨a, b⟩ := hs s hs'
+    have e1 : ratOps.lt cap s = false := by
+      show decide (cap < s) = false
+      exact decide_eq_false (by grind)
+    have e2 : ratOps.lt s ratOps.zero = false := by
+      show decide (s < 0) = false
+      exact decide_eq_false (by grind)
+    simp [e1, e2]
+  have hp : pack ratOps sizes cap useBest dec =
+      .ok ⟨if 1 < (packRun ratOps sizes cap useBest dec).bins.length then .FEASIBLE else .OPTIMAL,
+        (packRun ratOps sizes cap useBest dec).asg, (packRun ratOps sizes cap useBest dec).bins.length⟩ := by
+    unfold pack
+    rw [if_neg h0, h1, h2]
+    simp only [Bool.false_eq_true, if_false]
+  refine ⟨_, hp, hv, ceil_le_of_le_mul hcap hv.sum_le, hk1, ?_, ?_, ?_⟩
+  · by_cases h : 1 < (packRun ratOps sizes cap useBest dec).bins.length
+    · right; simp [h]
+    · left; simp [h]
+  · by_cases h : 1 < (packRun ratOps sizes cap useBest dec).bins.length
+    · simp [h]
+    · simp [h]; omega
+  · intro hopt asg' k' hv'
+    have : ¬ 1 < (packRun ratOps sizes cap useBest dec).bins.length := by
+      intro h; simp [h] at hopt
+    have := (validPack_lower_bound hv').2.2 hn
+    show (packRun ratOps sizes cap useBest dec).bins.length ≤ k'
+    omega
+
+/-! ## Non-vacuity -/
+
+/-- textbook instance (weights 1,2,3, values 6,10,12, capacity 5): the DP selects items 1,2 -/
+example : knapInt ratOps [(1, 6), (2, 10), (3, 12)] 5 = ([1, 2], 22) := by decide +kernel
+example : KnapFeasible [(1, 6), (2, 10), (3, 12)] 5 [1, 2] := (chkSel_iff _ _ _).1 (by decide +kernel)
+example : knapBest [(1, 6), (2, 10), (3, 12)] 5 = some 22 := by decide +kernel
+example : knapBest (castItems [(1, 6), (2, 10), (3, 12)]) ((5 : Nat) : Rat) = some 22 := by
+  rw [knapsack_dp_eq_knapBest]; decide +kernel
+example : chkKnapsack [((1 : Rat) / 2, 3), (0, 1)] 0 [1] 1 = true := by decide +kernel
+/-- items of sizes 4,8,1,4,0 into bins of 10 with best-fit: two bins (the 1 goes next to the 8) -/
+example : (pack ratOps [4, 8, 1, 4, 0] 10 true false).toOption.map (fun r => (r.asg, r.k)) =
+    some ([0, 1, 1, 0, 0], 2) := by decide +kernel
+example : ValidPack [4, 8, 1, 4, 0] 10 [0, 1, 1, 0, 0] 2 := (chkPack_iff _ _ _ _).1 (by decide +kernel)
+/-- the hypotheses of `binpack_valid` hold of that instance, for all four heuristics -/
+example (useBest dec : Bool) := binpack_valid [4, 8, 1, 4, 0] 10 useBest dec (by simp) (by decide +kernel)
+  (by decide +kernel)
 
 end Solvor.Pack
